@@ -110,6 +110,7 @@ PROPS = {
                                      "abstract in the proofs: SHA-256, DER decoding, ECDSA P-256 verification (RustCrypto crates, outside the repository)"],
     },
     "C05": {
+        "anchors": "sm",
         "run": ["EvalProps"], "functional": False,
         "n": {"quick": 300, "thorough": 6000},
         "level_text": "Theorem C05_consent_monitor_accepts_every_model_trace: for every script (all policy, HTTP, installer, clock, storage answers and "
@@ -128,6 +129,7 @@ PROPS = {
         "trusted_base": COMMON_TB + ["modelled, not verified: state_machine.rs, request_builder.rs, common.rs (valid)"],
     },
     "C07": {
+        "anchors": "sm",
         "run": ["EvalProps"], "functional": False,
         "n": {"quick": 300, "thorough": 8000},
         "level_text": "Theorems: (1) the accepted language of X-Retry-After is exactly +?digits < 2^64 giving min(N,86400) s, everything else absent (all byte strings); "
@@ -143,6 +145,7 @@ PROPS = {
         "trusted_base": COMMON_TB + ["modelled, not verified: state_machine.rs do_omaha_request_and_update_context, update_check.rs Context::load/persist"],
     },
     "C06": {
+        "anchors": "sm",
         "run": ["EvalProps"], "functional": False,
         "n": {"quick": 300, "thorough": 6000},
         "level_text": "Theorems: C06_retry_monitor_accepts_every_model_trace, C06_every_attempt_keeps_the_session_id_with_a_fresh_request_id and C06_response_time_metric_accounts_for_exactly_the_attempts: for every script, configuration and entry point the model's trace is accepted by the executable "
@@ -228,6 +231,7 @@ PROPS = {
                                      "serde_json's Deserializer (parse_str, ignore_value, number scanning, recursion limit)"],
     },
     "C02": {
+        "anchors": "sm",
         "run": ["EvalProps"], "functional": False,
         "n": {"quick": 300, "thorough": 3000},
         "level_text": "Theorem C02_auth_monitor_accepts_every_model_trace: for every script, configuration and entry point the model's trace is accepted by the executable "
@@ -245,6 +249,7 @@ PROPS = {
         "trusted_base": COMMON_TB + ["modelled, not verified: state_machine.rs; the verifier itself is C01's model"],
     },
     "C04": {
+        "anchors": "sm",
         "run": ["EvalProps"], "functional": False,
         "n": {"quick": 300, "thorough": 6000},
         "level_text": "Theorems: (1) C04_event_monitor_accepts_every_model_trace: for every script, configuration, app set and entry point the model's trace is accepted by the executable monitor step4, "
@@ -261,6 +266,7 @@ PROPS = {
         "trusted_base": COMMON_TB + ["modelled, not verified: state_machine.rs, update_check.rs, builder.rs, app_set.rs, common.rs"],
     },
     "C08": {
+        "anchors": "sm",
         "run": ["EvalProps"], "functional": False,
         "n": {"quick": 300, "thorough": 6000},
         "level_text": "Theorems: (1) C08_bookkeeping_monitor_accepts_every_model_trace: for every script, configuration, stored state and entry point the model's trace is accepted by the executable monitor "
@@ -281,6 +287,7 @@ PROPS = {
         "trusted_base": COMMON_TB + ["modelled, not verified: state_machine.rs, update_check.rs, builder.rs, app_set.rs, common.rs"],
     },
     "C09": {
+        "anchors": "sm",
         "run": ["EvalProps"], "functional": False,
         "n": {"quick": 300, "thorough": 6000},
         "level_text": "Theorems: (1) cohort merge is field-wise (present, even empty, replaces; absent keeps); apps not named are unchanged, named apps take the first naming response's cohort merge and day number; "
@@ -298,6 +305,7 @@ PROPS = {
         "trusted_base": COMMON_TB + ["modelled, not verified: state_machine.rs, update_check.rs, builder.rs, app_set.rs, common.rs"],
     },
     "C10": {
+        "anchors": "sm",
         "run": ["EvalProps"], "functional": False,
         "n": {"quick": 300, "thorough": 6000},
         "level_text": "Theorems: (1) C10_report_monitor_accepts_every_model_trace: for every script, configuration, app set and entry point the model's trace is accepted by the executable monitor "
@@ -314,6 +322,7 @@ PROPS = {
         "trusted_base": COMMON_TB + ["modelled, not verified: state_machine.rs, update_check.rs, builder.rs, app_set.rs, common.rs"],
     },
     "C12": {
+        "anchors": "sm",
         "run": ["EvalProps"], "functional": False,
         "n": {"quick": 300, "thorough": 6000},
         "level_text": "Theorems: (1) the timer branch of the wait is taken only after every armed timer has fired (any order), a control request wakes the machine without a timer, partial firings leave it waiting "
@@ -332,6 +341,7 @@ PROPS = {
         "trusted_base": COMMON_TB + ["modelled, not verified: state_machine.rs, update_check.rs, builder.rs, app_set.rs, common.rs"],
     },
     "C18": {
+        "anchors": "sm",
         "run": ["EvalProps"], "functional": False,
         "n": {"quick": 300, "thorough": 6000},
         "level_text": "Theorems: (1) the waited-for-reboot duration is finish -> start of this state machine, reported only with consistent clocks and independent of reporting delay; the install-attempt counter "
@@ -407,6 +417,7 @@ PROPS = {
                                      "abstract in the proofs: SHA-256, ECDSA P-256 signing and verification, DER (RustCrypto crates, outside the repository)"],
     },
     "C11": {
+        "anchors": "sm",
         "run": ["EvalProps"], "functional": False,
         "n": {"quick": 300, "thorough": 4000},
         "level_text": "Theorems: (1) C11_no_reply_without_request_and_never_two: the executable monitor step11a (every reply answers a request that was sent and is still unanswered, no request "
